@@ -10,7 +10,7 @@
 #include "vx_close.h"
 #define VX_STUB_XMLEXCEPTION
 #include "vx_stubs.hpp"
-#define SLOTS 4
+#define SLOTS 6
 struct LedgerMM : MemoryManager {
   void* blk[SLOTS]; bool live[SLOTS]; XMLSize_t sz[SLOTS]; int n; int foreign, dbl, outstanding;
   LedgerMM() : n(0), foreign(0), dbl(0), outstanding(0) { for (int i = 0; i < SLOTS; i++) { blk[i] = 0; live[i] = false; sz[i] = 0; } }
@@ -86,6 +86,18 @@ extern "C" void harness_janitor(void) {
   VX_ASSERT(A.outstanding == (kept ? 1 : 0), "ArrayJanitor returns its buffer to the manager it was given, exactly once");
   if (kept) A.deallocate(buf);
   VX_ASSERT(A.outstanding == 0 && A.foreign == 0 && A.dbl == 0 && G.n == 0, "no leak, nothing routed to the global manager (ArrayJanitor)");
+  // ArrayJanitor handed a buffer of ANOTHER manager by reset(p, manager): the old buffer goes back to the old manager, the new one to the new
+  {
+    LedgerMM B;
+    XMLCh* b1 = (XMLCh*)A.allocate(8 * sizeof(XMLCh)); XMLCh* b2 = (XMLCh*)B.allocate(4 * sizeof(XMLCh));
+    {
+      ArrayJanitor<XMLCh> aj(b1, &A);
+      aj.reset(b2, &B);
+      VX_ASSERT(A.outstanding == 0 && A.foreign == 0 && B.foreign == 0 && B.outstanding == 1, "reset(p, manager) returns the old buffer to the manager it came from, not to the new one");
+      VX_REACH("array janitor reset to another manager");
+    }
+    VX_ASSERT(B.outstanding == 0 && B.foreign == 0 && B.dbl == 0 && A.outstanding == 0 && A.foreign == 0 && A.dbl == 0 && G.n == 0, "after reset the new buffer is returned to the new manager");
+  }
   // JanitorMemFunCall: the member function runs exactly once at scope exit unless released
   Res res; g_calls = 0; bool rel = nondet_bool();
   { JanitorMemFunCall<Res> c(&res, &Res::close); if (rel) c.release(); }
